@@ -21,6 +21,22 @@ def rnd_expr(rng, depth):
     if r < 0.92: return ("list", [rnd_expr(rng, depth - 1) for _ in range(rng.randint(0, 2))])
     return ("bin", rng.choice(SETTERS), ("ref", rng.choice(NAMES)), rnd_expr(rng, depth - 1))   # nested assignment
 
+def safe_expr(rng, depth):
+    """numbers only, no division: evaluates without a type error, so that assignments nested inside it are reached and
+    what follows them runs. An assignment yields None: it is nested where that value is compared and discarded."""
+    r = rng.random()
+    if depth <= 0 or r < 0.35:
+        if rng.random() < 0.6: return ("ref", rng.choice(NAMES))
+        return ("lit", rng.choice(["0", "1", "2", "7", "2.5", "12", "3", "1.50", "10", "4"]))
+    if r < 0.7:
+        return ("bin", rng.choice(["+", "-", "*"]), safe_expr(rng, depth - 1), safe_expr(rng, depth - 1))
+    if r < 0.82:
+        cond = ("bin", rng.choice(["==", "<", ">=", "!="]), safe_expr(rng, depth - 1), safe_expr(rng, depth - 1))
+        return ("tern", cond, safe_expr(rng, depth - 1), safe_expr(rng, depth - 1))
+    # (n op= e) == unbound ? e1 : e2   - the assignment runs, its None is compared with an unbound name (None)
+    asg = ("bin", rng.choice(SETTERS[:4] + ["="]), ("ref", rng.choice(NAMES)), safe_expr(rng, depth - 1))
+    return ("tern", ("bin", rng.choice(["==", "!="]), asg, ("ref", "unbound")), safe_expr(rng, depth - 1), safe_expr(rng, depth - 1))
+
 def rnd_stmt(rng):
     r = rng.random()
     if r < 0.6:
@@ -39,7 +55,9 @@ class P:
     prop = "C06"
     rule = ("EXEC (parse_expression(s)?.exec(&mut ctx), then the caller's context is read back) of random statement sequences "
             "(<= 8 statements over 4 names, all 11 assignment operators, values of changing type, nested and chained assignments, "
-            "targets that are not names, failing statements at random positions) from random initial contexts, plus the exhaustive "
+            "targets that are not names, failing statements at random positions) from random initial contexts, as many mostly-valid programs "
+            "(numbers only, no failing operation, assignments nested where their None is compared and discarded - also to the target of "
+            "the enclosing compound assignment), plus the exhaustive "
             "product 11 operators x 14x14 value pairs. Oracle: a reference interpreter written from the property text gives the result "
             "class, the value and the full final context. Non-trivial = distinct program with at least one assignment.")
     assumptions = ["the value of an assignment is None, so `x = y = 3` binds y to 3 and x to None (as the property states)"]
@@ -57,6 +75,28 @@ class P:
                     ctx = {"x": ("var", a), "y": ("var", b)}
                     stmts = [("bin", op, ("ref", "x"), ("ref", "y")), ("ref", "x")]
                     items.append(self.mk(stmts, ctx, PT))
+        # mostly-valid programs: every name bound to a number, expressions that cannot fail, assignments nested inside the
+        # right-hand sides of (compound) assignments - to the same name too
+        nsafe = 2500 if tier == "quick" else 200000
+        for _ in range(nsafe):
+            ctx = {nm: ("var", rng.choice(VALS[:6] + VALS[12:])) for nm in NAMES}
+            stmts = []
+            for _k in range(rng.randint(1, 6)):
+                if rng.random() < 0.75:
+                    stmts.append(("bin", rng.choice(SETTERS[:4] + ["=", "="]), ("ref", rng.choice(NAMES)), safe_expr(rng, rng.choice([1, 2, 3]))))
+                else:
+                    stmts.append(safe_expr(rng, 2))
+            stmts.append(("list", [("ref", nm) for nm in NAMES[:4]]))
+            items.append(self.mk(stmts, ctx, PT))
+        # the target of a compound assignment assigned again inside its own right-hand side: `x op= e` is `x op e` with x read first
+        for op in SETTERS[1:]:
+            for inner in ("=", "+=", "*="):
+                for v0, v1 in (("1", "10"), ("12", "2"), ("7", "3")):
+                    asg = ("bin", inner, ("ref", "a"), ("lit", v1))
+                    rhs = ("tern", ("bin", "==", asg, ("ref", "unbound")), ("lit", "5"), ("lit", "7"))
+                    items.append(self.mk([("bin", "=", ("ref", "a"), ("lit", v0)), ("bin", op, ("ref", "a"), rhs), ("ref", "a")], {}, PT))
+                    rhs2 = ("bin", "+", ("tern", ("bin", "==", asg, ("ref", "unbound")), ("ref", "a"), ("lit", "7")), ("lit", "1"))
+                    items.append(self.mk([("bin", "=", ("ref", "a"), ("lit", v0)), ("bin", op, ("ref", "a"), rhs2), ("ref", "a")], {}, PT))
         n = 3000 if tier == "quick" else 300000
         for _ in range(n):
             ctx = {}
